@@ -171,6 +171,22 @@ def run(ctx):
         st = [e for p in ret_paths(paths) for e in p.events if e.kind == "store" and mentions(e.place, lambda s: s[0] == "field" and s[3] == "size")]
         ok = bool(st) and all(unwrap_some(e.value) == ("param", 3) and mentions(e.place, lambda s: is_call(s, "IndexMap::get_mut")) for e in st)
         ctx.check(ok, "D3-APPEND", fn, "existing-entry", "existing entry: size = Some(size)", "an existing entry's size is not set in place to Some(size)", fn_span(body))
+    # ... and unconditionally: every path on which the entry exists (get_mut found it) performs the update, exactly once; nothing about
+    #     the entry's present contents (a size already there, a checksum of the same algorithm) decides whether the line takes effect
+    for fn, what, is_upd in (("distinfo::Distinfo::update_checksum", "appends the checksum",
+                              lambda e_: ev_is(e_, "Vec::push") and mentions(e_.args[0], lambda s_: s_[0] == "field" and s_[3] == "checksums")),
+                             ("distinfo::Distinfo::update_size", "sets the size",
+                              lambda e_: e_.kind == "store" and mentions(e_.place, lambda s_: s_[0] == "field" and s_[3] == "size"))):
+        ps_ = ctx.paths(fn)
+        if not ps_:
+            continue
+        body = ctx.body(fn)
+        exist = [p for p in ret_paths(ps_) if any(c.term[0] == "discr" and is_call(strip_refs(c.term[1]), "IndexMap::get_mut", "IndexMap::get", "::entry") and
+                                                 (c.fact == ("eq", 1) or (c.fact[0] == "ne" and 0 in c.fact[1])) for c in p.conds())]
+        bad = [p for p in exist if sum(1 for e_ in p.events if is_upd(e_)) != 1]
+        ctx.check(bool(exist) and not bad, "D3-ALWAYS", fn, "existing-entry-always-updated", "every path that found the entry %s once" % what,
+                  "%s has a path on which the entry exists but the line has no (or a repeated) effect%s: a recognised line must always land on its file"
+                  % (fn, (" (decided by %s)" % term_str(bad[0].conds()[-1].term)[:80]) if bad and bad[0].conds() else ""), fn_span(body))
     di = fx.adts.get("distinfo::Distinfo")
     for fld in ("distfiles", "patchfiles"):
         ty = next((f["ty"] for f in di["variants"][0]["fields"] if f["name"] == fld), None) if di else None
@@ -315,3 +331,22 @@ def run(ctx):
 
     # ---- the accessors through which the recorded entries are observed
     distinfo_accessors(ctx, "D3-ACCESSOR")
+
+    # ---- which field of a line is the keyword / the name / the value (shared with C10, where the positions are derived from the writer's line shape)
+    import rules.c10 as c10
+    from check import Ctx, Record
+    sub = Ctx("C10", ctx.tier, ctx.fx)
+    sub.inline_set = ctx.inline_set
+    sub.desugar = bool(getattr(c10, "DESUGAR", False))
+    try:
+        c10.run(sub)
+        shared = [r for r in sub.records if r.rule in ("D3-POSITIONS", "D2-NAME-RAW", "D3-KEYWORD")]
+    except Exception:
+        shared = None
+    if shared is None:
+        ctx.violation("D5-FIELDS", LFB, "positions", "the field-position rules could not be evaluated", "")
+    else:
+        ctx.floor("D5-FIELDS", LFB, "shared field-position rule instances", len(shared), 3)
+        for r in shared:
+            ctx.records.append(Record("D5-FIELDS", r.item, "%s:%s" % (r.rule, r.instance), r.verdict, r.detail, r.span, r.nontrivial))
+
